@@ -19,6 +19,140 @@ impl<'a> TextSelectionIter<'a> {
     /// ghost: the half-open range [lo, hi) of positions this iterator walks
     pub uninterp spec fn lo(&self) -> usize;
     pub uninterp spec fn hi(&self) -> usize;
+    /// ghost: the selections `next()` will still yield (ascending by begin) / `next_back()` will still yield
+    /// (taken from the back of a sequence ascending by end).  Walk assumption (trusted, not verified): at
+    /// creation fwd() lists each indexed selection with lo <= begin < hi once, bwd() each with lo <= end < hi once.
+    pub uninterp spec fn fwd(&self) -> Seq<TextSelection>;
+    pub uninterp spec fn bwd(&self) -> Seq<TextSelection>;
+
+    /// stands for `impl Iterator for TextSelectionIter` (src/resources.rs)
+    #[verifier::external_body]
+    pub fn next(&mut self) -> (r: Option<&'a TextSelection>)
+        ensures
+            old(self).fwd().len() == 0 ==> r is None && final(self).fwd() == old(self).fwd(),
+            old(self).fwd().len() > 0 ==> r is Some && *r.unwrap() == old(self).fwd()[0] && final(self).fwd() == old(self).fwd().skip(1),
+            final(self).bwd() == old(self).bwd(), final(self).lo() == old(self).lo(), final(self).hi() == old(self).hi(),
+    { unimplemented!() }
+
+    /// stands for `impl DoubleEndedIterator for TextSelectionIter`
+    #[verifier::external_body]
+    pub fn next_back(&mut self) -> (r: Option<&'a TextSelection>)
+        ensures
+            old(self).bwd().len() == 0 ==> r is None && final(self).bwd() == old(self).bwd(),
+            old(self).bwd().len() > 0 ==> r is Some && *r.unwrap() == old(self).bwd().last() && final(self).bwd() == old(self).bwd().drop_last(),
+            final(self).fwd() == old(self).fwd(), final(self).lo() == old(self).lo(), final(self).hi() == old(self).hi(),
+    { unimplemented!() }
+}
+
+pub assume_specification<T, A: std::alloc::Allocator> [VecDeque::<T, A>::is_empty] (q: &VecDeque<T, A>) -> (r: bool)
+    ensures r == (q@.len() == 0);
+
+impl TextSelectionSet {
+    /// stands for TextSelectionSet::has_handle: `self.data.iter().any(|t| t.handle() == Some(handle))`
+    #[verifier::external_body]
+    pub fn has_handle(&self, handle: TextSelectionHandle) -> (r: bool)
+        ensures r == has_handle_spec(self.data@, handle),
+    { unimplemented!() }
+}
+pub open spec fn has_handle_spec(rs: Seq<TextSelection>, h: TextSelectionHandle) -> bool {
+    exists|i: int| 0 <= i < rs.len() && (#[trigger] rs[i]).intid == Some(h)
+}
+
+/// a walked selection is reported iff the relation test holds for it and it is not itself a member of the reference set
+pub open spec fn keep(op: TextSelectionOperator, rs: Seq<TextSelection>, res: &TextResource, t: TextSelection) -> bool {
+    t1(op, rs, t, res) && !has_handle_spec(rs, t.intid.unwrap())
+}
+
+/// the handles a walk still has to contribute (as a multiset: "each once")
+pub open spec fn kept(op: TextSelectionOperator, rs: Seq<TextSelection>, res: &TextResource, s: Seq<TextSelection>) -> Multiset<TextSelectionHandle>
+    decreases s.len()
+{
+    if s.len() == 0 { Multiset::empty() }
+    else if keep(op, rs, res, s.last()) { kept(op, rs, res, s.drop_last()).insert(s.last().intid.unwrap()) }
+    else { kept(op, rs, res, s.drop_last()) }
+}
+
+pub proof fn lemma_kept_front(op: TextSelectionOperator, rs: Seq<TextSelection>, res: &TextResource, s: Seq<TextSelection>)
+    requires s.len() > 0,
+    ensures kept(op, rs, res, s) == (if keep(op, rs, res, s[0]) { kept(op, rs, res, s.skip(1)).insert(s[0].intid.unwrap()) } else { kept(op, rs, res, s.skip(1)) }),
+    decreases s.len(),
+{
+    if s.len() == 1 {
+        assert(s.skip(1) =~= s.drop_last());
+        assert(s.last() == s[0]);
+    } else {
+        lemma_kept_front(op, rs, res, s.drop_last());
+        assert(s.drop_last().skip(1) =~= s.skip(1).drop_last());
+        assert(s.drop_last()[0] == s[0]);
+        assert(s.skip(1).last() == s.last());
+        let a = kept(op, rs, res, s.skip(1).drop_last());
+        let h0 = s[0].intid.unwrap(); let hl = s.last().intid.unwrap();
+        if keep(op, rs, res, s[0]) && keep(op, rs, res, s.last()) {
+            assert(a.insert(h0).insert(hl) =~= a.insert(hl).insert(h0));
+        }
+    }
+}
+
+pub open spec fn pending(it: (TextSelectionIter, bool)) -> Seq<TextSelection> { if it.1 { it.0.fwd() } else { it.0.bwd() } }
+
+/// what the iterators from index k on still have to contribute
+pub open spec fn rest(op: TextSelectionOperator, rs: Seq<TextSelection>, res: &TextResource, its: Seq<(TextSelectionIter, bool)>, k: int) -> Multiset<TextSelectionHandle>
+    decreases its.len() - k
+{
+    if k < 0 || k >= its.len() { Multiset::empty() } else { kept(op, rs, res, pending(its[k])).add(rest(op, rs, res, its, k + 1)) }
+}
+
+pub proof fn lemma_rest_frame(op: TextSelectionOperator, rs: Seq<TextSelection>, res: &TextResource, a: Seq<(TextSelectionIter, bool)>, b: Seq<(TextSelectionIter, bool)>, k: int)
+    requires a.len() == b.len(), forall|j: int| k <= j < a.len() ==> pending(#[trigger] a[j]) == pending(b[j]),
+    ensures rest(op, rs, res, a, k) == rest(op, rs, res, b, k),
+    decreases a.len() - k,
+{
+    if 0 <= k < a.len() { lemma_rest_frame(op, rs, res, a, b, k + 1); }
+}
+
+/// every selection a walk yields is a known, well-formed selection
+pub open spec fn walk_ok(it: (TextSelectionIter, bool)) -> bool {
+    forall|i: int| 0 <= i < pending(it).len() ==> wf(#[trigger] pending(it)[i]) && pending(it)[i].intid is Some
+}
+
+'''
+
+
+COVER_HINT = '''proof {
+            let rs = old(self).refset.data@;
+            lemma_min_begin(rs); lemma_max_end(rs);
+            assert forall|t: TextSelection| wf(t) && t.end <= old(self).resource.tl() && #[trigger] t1(old(self).operator, rs, t, old(self).resource) implies finds(self.textseliters@[0], t) by {
+                assert(rel_pos(old(self).operator, rs[0], t, old(self).resource) || subject_by_bound(old(self).operator) || negated(old(self).operator));
+            }
+        }'''
+
+
+FUTURE = r'''
+impl<'store> FindTextSelectionsIter<'store> {
+    /// everything this iterator will still return, as a multiset of handles
+    pub open spec fn future(&self) -> Multiset<TextSelectionHandle> {
+        if self.drain_buffer { self.buffer@.to_multiset() }
+        else { self.buffer@.to_multiset().add(rest(self.operator, self.refset.data@, self.resource, self.textseliters@, self.textseliter_index as int)) }
+    }
+    pub open spec fn walks_ok(&self) -> bool {
+        forall|j: int| 0 <= j < self.textseliters@.len() ==> walk_ok(#[trigger] self.textseliters@[j])
+    }
+    /// termination measure of the outer loop: total number of selections still to walk, plus iterators left
+    pub open spec fn measure(&self) -> nat {
+        if self.drain_buffer { 0 } else { 1 + todo_len(self.textseliters@, self.textseliter_index as int) }
+    }
+}
+pub open spec fn todo_len(its: Seq<(TextSelectionIter, bool)>, k: int) -> nat
+    decreases its.len() - k
+{
+    if k < 0 || k >= its.len() { 0 } else { 1 + pending(its[k]).len() + todo_len(its, k + 1) }
+}
+pub proof fn lemma_todo_frame(a: Seq<(TextSelectionIter, bool)>, b: Seq<(TextSelectionIter, bool)>, k: int)
+    requires a.len() == b.len(), forall|j: int| k <= j < a.len() ==> pending(#[trigger] a[j]) == pending(b[j]),
+    ensures todo_len(a, k) == todo_len(b, k),
+    decreases a.len() - k,
+{
+    if 0 <= k < a.len() { lemma_todo_frame(a, b, k + 1); }
 }
 
 impl TextResource {
@@ -55,12 +189,18 @@ pub open spec fn found_once(its: Seq<(TextSelectionIter, bool)>, t: TextSelectio
 '''
 
 
-COVER_HINT = '''proof {
-            let rs = old(self).refset.data@;
-            lemma_min_begin(rs); lemma_max_end(rs);
-            assert forall|t: TextSelection| wf(t) && t.end <= old(self).resource.tl() && #[trigger] t1(old(self).operator, rs, t, old(self).resource) implies finds(self.textseliters@[0], t) by {
-                assert(rel_pos(old(self).operator, rs[0], t, old(self).resource) || subject_by_bound(old(self).operator) || negated(old(self).operator));
-            }
+FRAME_HINT = '''proof { let k = old(self).textseliter_index as int; lemma_rest_frame(old(self).operator, old(self).refset.data@, old(self).resource, old(self).textseliters@, self.textseliters@, k + 1); lemma_todo_frame(old(self).textseliters@, self.textseliters@, k + 1); }'''
+
+
+BACKWARD_HINT = '''proof {
+            let k = old(self).textseliter_index as int;
+            let op = self.operator; let rs = self.refset.data@; let res = self.resource;
+            lemma_rest_frame(op, rs, res, old(self).textseliters@, self.textseliters@, k + 1); lemma_todo_frame(old(self).textseliters@, self.textseliters@, k + 1);
+            assert(kept(op, rs, res, pending(self.textseliters@[k])) =~= Multiset::empty());
+            assert(rest(op, rs, res, self.textseliters@, k) =~= rest(op, rs, res, self.textseliters@, k + 1));
+            assert(rest(op, rs, res, old(self).textseliters@, k) =~= kept(op, rs, res, old(self).textseliters@[k].0.bwd()).add(rest(op, rs, res, old(self).textseliters@, k + 1)));
+            assert(self.buffer@.to_multiset() =~= old(self).buffer@.to_multiset().add(kept(op, rs, res, old(self).textseliters@[k].0.bwd())));
+            assert(self.buffer@.to_multiset().add(rest(op, rs, res, self.textseliters@, k)) =~= old(self).future());
         }'''
 
 
@@ -69,6 +209,7 @@ def build():
     u.name = 'u_find'
     u.serves = ['C06']
     u.use('use std::collections::VecDeque;')
+    u.use('use vstd::multiset::Multiset;')
     u.trusted_text(STUBS, 'external_body TextSelectionIter (opaque range over the position index), TextResource::{textlen, range} stubs')
     u.impl(R, 'impl TextResource', [
         Fn('iter', props=P, ret='r', requires=[('fits', 'self.tl() < usize::MAX')],
@@ -85,6 +226,7 @@ def build():
     ])
     u.item(F, 'struct', 'FindTextSelectionsIter', keep_derives=[],
            rewrites=[('R-vis', r'\b(resource|operator|refset|textseliters|textseliter_index|buffer|drain_buffer):', r'pub \1:')])
+    u.spec(FUTURE, 'contracts/u_find.py:FUTURE')
     REF_IT = ('R-wrapiter', r'for reftextselection in self\.refset\.iter\(\)', 'for reftextselection in vx_it: self.refset.data.iter()')
     L = 'old(self).resource.tl()'
     RS = 'old(self).refset.data@'
@@ -103,4 +245,82 @@ def build():
                ('once', f'forall|t: TextSelection| wf(t) && t.end <= {L} && #[trigger] t1(old(self).operator, {RS}, t, old(self).resource) ==> found_once(final(self).textseliters@, t)'),
            ]),
     ])
+
+    # ------------------------------------------------------------------ filter + buffer (walk region), next_iterator, next
+    FRAME = 'final(self).operator == old(self).operator && final(self).refset == old(self).refset && final(self).resource == old(self).resource'
+    STEP = [('emits_from_future', 'r is Some ==> old(self).future().count(r.unwrap()) > 0 && final(self).future() =~= old(self).future().remove(r.unwrap())'),
+            ('nothing_lost', 'r is None ==> final(self).future() =~= old(self).future()'),
+            ('progress', 'r is None ==> final(self).measure() < old(self).measure()'),
+            ('walks_ok', 'final(self).walks_ok()'),
+            ('still_active_or_drained', 'final(self).textseliters@.len() == old(self).textseliters@.len() && (final(self).drain_buffer || final(self).textseliter_index < final(self).textseliters@.len())'),
+            ('frame', FRAME)]
+    REFS_OK = ('refset_ok', 'old(self).refset.data@.len() > 0 && set_wf(old(self).refset.data@) && old(self).refset.inv()')
+    WALK_SIG = 'fn next_textselection__walk(&mut self) -> Option<TextSelectionHandle>'
+    # R-inherent: Storable::handle for TextSelection emitted as an inherent method
+    u.impl(F, 'impl Storable for TextSelection', [
+        Fn('handle', props=P, ret='r', ensures=[('intid', 'r == self.intid')]),
+    ], verus_header='impl TextSelection')
+    u.impl(F, "impl<'store> FindTextSelectionsIter<'store>", [
+        Fn('next_iterator', props=P,
+           prologue='let vx_n = self.textseliters.len(); proof { reveal_with_fuel(rest, 3); reveal_with_fuel(todo_len, 3); }',
+           requires=[('active', '!old(self).drain_buffer && old(self).textseliter_index < old(self).textseliters@.len()'),
+                     ('exhausted', 'pending(old(self).textseliters@[old(self).textseliter_index as int]).len() == 0')],
+           ensures=[('future_kept', 'final(self).future() =~= old(self).future()'),
+                    ('progress', 'final(self).measure() < old(self).measure()'),
+                    ('bounds', 'final(self).drain_buffer || final(self).textseliter_index < final(self).textseliters@.len()'),
+                    ('frame', FRAME + ' && final(self).textseliters == old(self).textseliters && final(self).buffer == old(self).buffer')]),
+        Fn('next_textselection', emit_name='next_textselection__walk', props=P, ret='r',
+           region=('let forward = self.textseliters.get_mut(self.textseliter_index).unwrap().1;',
+                   r're:None //triggers normal looping behaviour\s*\}\s*\}\s*\Z', WALK_SIG, '        None'),
+           requires=[('active', '!old(self).drain_buffer && old(self).textseliter_index < old(self).textseliters@.len()'),
+                     ('walks_ok', 'old(self).walks_ok()'), REFS_OK],
+           ensures=STEP, reach_guard=True,
+           prologue='''broadcast use vstd::seq_lib::group_to_multiset_ensures;
+        proof { reveal_with_fuel(rest, 2); reveal_with_fuel(todo_len, 2); reveal_with_fuel(kept, 2); }
+        proof { let k = old(self).textseliter_index as int; let p = pending(old(self).textseliters@[k]);
+                if old(self).textseliters@[k].1 && p.len() > 0 { lemma_kept_front(old(self).operator, old(self).refset.data@, old(self).resource, p); } }''',
+           before=[('return Some(textselection.handle().unwrap());', FRAME_HINT, None, 'emits_from_future'),
+                   ('self.buffer.push_back(textselection.handle().unwrap());', FRAME_HINT, None, 'nothing_lost'),
+                   ('self.next_iterator();', FRAME_HINT, 0, 'nothing_lost'),
+                   ('self.next_iterator();', BACKWARD_HINT, 1, 'nothing_lost'),
+                   (r're:None\s*\}\s*\Z', FRAME_HINT, None, 'nothing_lost'),
+                   ('self.buffer.push_front(textselection.handle().unwrap())', 'let ghost vx_buf = self.buffer@;')],
+           after=[('self.buffer.push_front(textselection.handle().unwrap())', '; proof { let h = textselection.intid.unwrap(); assert(self.buffer@ =~= vx_buf.insert(0, h)); vstd::seq_lib::to_multiset_insert(vx_buf, 0, h); }'),
+                  ('self.buffer.push_back(textselection.handle().unwrap());', 'proof { let h = textselection.intid.unwrap(); vstd::seq_lib::to_multiset_build(old(self).buffer@, h); }')],
+           loops={0: dict(invariant=[
+               ('state', '!self.drain_buffer && self.textseliter_index == old(self).textseliter_index && self.textseliters@.len() == old(self).textseliters@.len() && (self.textseliter_index as int) < self.textseliters@.len()'),
+               ('backward', '!self.textseliters@[self.textseliter_index as int].1 && !old(self).textseliters@[old(self).textseliter_index as int].1'),
+               ('others', 'forall|j: int| 0 <= j < self.textseliters@.len() && j != self.textseliter_index ==> pending(#[trigger] self.textseliters@[j]) == pending(old(self).textseliters@[j])'),
+               ('walks_ok', 'self.walks_ok()'),
+               ('frame', 'self.operator == old(self).operator && self.refset == old(self).refset && self.resource == old(self).resource'),
+               ('refs', 'self.refset.data@.len() > 0 && set_wf(self.refset.data@) && self.refset.inv()'),
+               ('accounting', 'self.buffer@.to_multiset().add(kept(self.operator, self.refset.data@, self.resource, self.textseliters@[self.textseliter_index as int].0.bwd())) =~= old(self).buffer@.to_multiset().add(kept(old(self).operator, old(self).refset.data@, old(self).resource, old(self).textseliters@[old(self).textseliter_index as int].0.bwd()))'),
+           ], ensures=['self.textseliters@[self.textseliter_index as int].0.bwd().len() == 0'],
+              decreases='self.textseliters@[self.textseliter_index as int].0.bwd().len()')}),
+    ])
+    # the glue of next_textselection (Equals shortcut, lazy call of init_textseliters) is not verified: the whole
+    # function is declared with the step contract that its walk region is proved against (assumed for next())
+    u.impl(F, "impl<'store> FindTextSelectionsIter<'store>", [
+        Fn('next_textselection', props=P, ret='r', external_body=True,
+           requires=[('active', '!old(self).drain_buffer && old(self).textseliter_index < old(self).textseliters@.len()'),
+                     ('walks_ok', 'old(self).walks_ok()'), REFS_OK],
+           ensures=STEP),
+    ])
+    u.impl(F, "impl<'store> Iterator for FindTextSelectionsIter<'store>", [
+        Fn('next', props=P, ret='r', sig_rewrites=[('R-inherent', r'Self::Item', 'TextSelectionHandle')],
+           requires=[('initialised', 'old(self).drain_buffer || old(self).textseliter_index < old(self).textseliters@.len()'),
+                     ('walks_ok', 'old(self).walks_ok()'), REFS_OK],
+           ensures=[('emits_from_future', 'r is Some ==> old(self).future().count(r.unwrap()) > 0 && final(self).future() =~= old(self).future().remove(r.unwrap())'),
+                    ('none_only_when_done', 'r is None ==> old(self).future() =~= Multiset::empty() && final(self).future() =~= Multiset::empty()'),
+                    ('state', 'final(self).walks_ok() && (final(self).drain_buffer || final(self).textseliter_index < final(self).textseliters@.len())'),
+                    ('frame', FRAME)],
+           prologue='broadcast use vstd::seq_lib::group_to_multiset_ensures;',
+           before=[('return self.buffer.pop_front();', 'proof { let b = self.buffer@; if b.len() > 0 { assert(b.skip(1) =~= b.remove(0)); vstd::seq_lib::to_multiset_remove(b, 0); assert(b.contains(b[0])); vstd::seq_lib::to_multiset_contains(b, b[0]); } else { vstd::seq_lib::to_multiset_len(b); assert(b.to_multiset().len() == 0); vstd::multiset::lemma_multiset_empty_len(b.to_multiset()); } }')],
+           loops={0: dict(invariant=[
+               ('future', 'self.future() =~= old(self).future()'),
+               ('state', 'self.walks_ok() && (self.drain_buffer || self.textseliter_index < self.textseliters@.len())'),
+               ('refs', 'self.refset.data@.len() > 0 && set_wf(self.refset.data@) && self.refset.inv()'),
+               ('frame', 'self.operator == old(self).operator && self.refset == old(self).refset && self.resource == old(self).resource'),
+           ], decreases='self.measure()')}),
+    ], verus_header="impl<'store> FindTextSelectionsIter<'store>")
     return u
